@@ -35,6 +35,11 @@ What the extraction keeps: the signature and every body line of the real functio
   * the return type `-> T` is written `-> (name: T)` so that the contract can name the result
   * `for` loop headers listed under @forloop get a ghost iterator name
   * text is only ever *inserted* (contract clauses, invariants, ghost/proof blocks)
+  * `@closure <anchor>`: the single closure `|p| body` on the anchored line is re-emitted as
+    `|p: T| -> (v: U) ensures .. { body }` -- parameter names must equal the real ones, the body text is kept byte for byte
+    (Verus knows nothing about an unannotated closure's result)
+  * `@item file :: struct|type :: Name` copies the real type definition verbatim (derive attributes above it are dropped);
+    `@feature x` emits `#![feature(x)]` (needed to name `Arc<T, A>`'s allocator parameter in an assumed std contract)
 A missing or ambiguous anchor line raises WeaveError -> exit 2 (UNDECIDED), never a VIOLATION.
 """
 import os
@@ -50,7 +55,7 @@ VERIF = weave.VERIF
 
 def parse_spec(path):
     unit = dict(name=None, props=[], tier='quick', prelude='', postlude='', fns=[], mem_gb=3, timeout_s=600, est_s=10,
-                path=path, consts=[])
+                path=path, consts=[], items=[], features=[])
     cur_fn = None
     cur_block = None  # (kind, arg, lines)
     mode = None
@@ -84,7 +89,8 @@ def parse_spec(path):
     for raw in text_lines:
         m = re.match(r'@(\w+)\s*(.*)', raw)
         if m and m.group(1) in ('unit', 'props', 'tier', 'prelude', 'postlude', 'fn', 'clause', 'contract', 'start', 'loop',
-                                'forloop', 'before', 'after', 'afterblock', 'endfn', 'mem', 'timeout', 'est', 'replace', 'const'):
+                                'forloop', 'before', 'after', 'afterblock', 'endfn', 'mem', 'timeout', 'est', 'replace', 'const', 'item', 'feature',
+                                'closure'):
             tag, rest = m.group(1), m.group(2).strip()
             flush()
             if tag == 'unit':
@@ -114,12 +120,17 @@ def parse_spec(path):
             elif tag == 'const':
                 parts = [p.strip() for p in rest.split('::')]
                 unit['consts'].append(dict(file=parts[0], name=parts[1]))
+            elif tag == 'item':
+                parts = [p.strip() for p in rest.split('::')]
+                unit['items'].append(dict(file=parts[0], kind=parts[1], name=parts[2]))
+            elif tag == 'feature':
+                unit['features'].append(rest)
             elif tag == 'clause':
                 if cur_fn is not None:
                     cur_fn['clause'] += (' ' if cur_fn['clause'] else '') + rest
             elif tag in ('contract', 'start'):
                 cur_block = (tag, None, [])
-            elif tag in ('loop', 'forloop', 'before', 'after', 'afterblock', 'replace'):
+            elif tag in ('loop', 'forloop', 'before', 'after', 'afterblock', 'replace', 'closure'):
                 cur_block = (tag, rest, [])
             elif tag == 'endfn':
                 cur_fn = None
@@ -150,6 +161,38 @@ def transform_signature(sig, ret_name):
         ty = sig[pos + 2:].strip()
         sig = sig[:pos] + '-> (%s: %s)' % (ret_name, ty)
     return sig
+
+
+def annotate_closure(line, text):
+    """The one closure `|params| body` on `line` (body = the expression up to the closing parenthesis of the call it is an
+    argument of, on the same line) becomes `<typed header> <ensures> { body }`: the first line of `text` is the typed header
+    `|p: T| -> (v: U)`, the rest the ensures clause.  The parameter names must be the real ones and the body text is kept byte
+    for byte; anything else is a lost anchor."""
+    m = re.search(r'\|([^|]*)\|\s*', line)
+    if not m or line.count('|') != 2:
+        raise WeaveError('anchor lost: expected exactly one closure on line `%s`' % line.strip())
+    depth = 0
+    end = None
+    for i in range(m.end(), len(line)):
+        ch = line[i]
+        if ch in '([{':
+            depth += 1
+        elif ch in ')]}':
+            if depth == 0:
+                end = i
+                break
+            depth -= 1
+    if end is None:
+        raise WeaveError('anchor lost: closure body not closed on line `%s`' % line.strip())
+    body = line[m.end():end]
+    tl = [x for x in text.split('\n') if x.strip()]
+    header, ens = tl[0].strip(), ' '.join(x.strip() for x in tl[1:])
+    hm = re.match(r'\|([^|]*)\|', header)
+    real = [x.strip() for x in m.group(1).split(',')]
+    typed = [x.split(':')[0].strip() for x in hm.group(1).split(',')] if hm else None
+    if typed != real:
+        raise WeaveError('anchor lost: closure parameters `%s` differ from the annotated `%s`' % (m.group(1), header))
+    return line[:m.start()] + header + ' ' + ens + ' { ' + body + ' }' + line[end:]
 
 
 def build_fn(repo, f):
@@ -201,6 +244,9 @@ def build_fn(repo, f):
         elif ins['kind'] in ('before', 'after'):
             k = find_line(ins['anchor'])
             ops.append((k, ins['kind'], ins, None))
+        elif ins['kind'] == 'closure':
+            k = find_line(ins['anchor'])
+            ops.append((k, 'closure', ins, None))
         elif ins['kind'] == 'afterblock':
             # after the closing brace of the block whose header line is the anchor
             k = find_line(ins['anchor'], strip_brace=True)
@@ -216,7 +262,7 @@ def build_fn(repo, f):
             ops.append((end, 'after', ins, None))
     out_lines = list(lines)
     # apply from the bottom up so that indices stay valid; several inserts on one line keep spec order
-    prio = {'loop': 0, 'forloop': 0, 'after': 1, 'before': 2}
+    prio = {'loop': 0, 'forloop': 0, 'closure': 0, 'after': 1, 'before': 2}
     for k, kind, ins, extra in sorted(ops, key=lambda x: (-x[0], prio[x[1]])):
         l = out_lines[k]
         if kind == 'loop':
@@ -227,6 +273,8 @@ def build_fn(repo, f):
             if not mm:
                 raise WeaveError('anchor lost: not a for loop header: %s' % l.strip())
             out_lines[k] = '%s%s: %s\n%s\n{' % (mm.group(1), extra, mm.group(2).strip(), ins['text'])
+        elif kind == 'closure':
+            out_lines[k] = annotate_closure(l, ins['text'])
         elif kind == 'before':
             out_lines[k] = ins['text'] + '\n' + l
         elif kind == 'after':
@@ -247,8 +295,25 @@ def build_fn(repo, f):
 def build_unit(repo, unit, outdir):
     os.makedirs(outdir, exist_ok=True)
     parts = ['// GENERATED on every run by tools/verus_extract.py from %s and the working tree of %s\n' % (
-        os.path.basename(unit['path']), repo), 'use vstd::prelude::*;\nverus! {\n', unit['prelude']]
+        os.path.basename(unit['path']), repo), ''.join('#![feature(%s)]\n' % x for x in unit['features']),
+        'use vstd::prelude::*;\nverus! {\n', unit['prelude']]
     meta = []
+    # real struct / type-alias items, copied verbatim (attributes above them are not part of the item and are dropped)
+    for c in unit['items']:
+        cpath = os.path.join(repo, c['file'])
+        if not os.path.exists(cpath):
+            raise WeaveError('anchor lost: file %s' % c['file'])
+        cs = open(cpath).read()
+        if c['kind'] == 'type':
+            mt = re.search(r'^(pub\s+)?type\s+' + re.escape(c['name']) + r'\b[^;]*;', cs, re.M)
+            if not mt:
+                raise WeaveError('anchor lost: type %s' % c['name'])
+            a, b = mt.start(), mt.end()
+        else:
+            a, b = weave.find_item(cs, c['kind'], c['name'])
+        parts.append(cs[a:b].strip() + '\n')
+        meta.append(dict(file=c['file'], owner='-', fn='%s %s' % (c['kind'], c['name']), sha256=weave.sha(cs[a:b]),
+                         clause='real type definition, copied verbatim (derive attributes dropped)', real_lines=cs[a:b].count('\n') + 1))
     # real `const` items, copied verbatim (visibility and value untouched)
     for c in unit['consts']:
         cpath = os.path.join(repo, c['file'])
